@@ -39,6 +39,10 @@ def jobs_api(rng, thorough):
 def run(ctx: core.Ctx):
     ctx.lean_stage(extra_props=("Tie",))
     b2check.run_b2(ctx, jobs, ["C01"], label="traffic scenarios")
+    # exhaustive within a bound: every schedule up to 3 (thorough: 5) deviations from the canonical one, on small scenarios
+    _small = gen.small_scenarios()
+    b2check.run_systematic(ctx, [_small[n] for n in ['traffic', 'two-callers', 'link-drop', 'concurrent-close']], ["C01"], depth=5 if ctx.tier == "thorough" else 3,
+                           label="traffic, two-callers, link-drop, concurrent-close", max_runs=60000 if ctx.tier == "thorough" else 6000)
     b2check.run_b2(ctx, jobs_slow, MONS, label="slow (blocking) writes, monitor only", accept=False)
     b2check.run_b2(ctx, lambda rng, th: [(gen.with_second(rng, gen.conn_traffic(rng, max_threads=2, max_cmds=16)), rng.randrange(10 ** 9), rng.choice([0, 3])) for _ in range(4000 if th else 100)], ["C01two"],
                    label="a second connection with its own traffic alive in the same process (monitor only, first connection judged)", accept=False)
